@@ -175,6 +175,16 @@ def one_case(ctx, LP, op, A, B, extra):
                 # parity of the stored range is named by the property
                 if int(val.parity) != lp_dec(mo)["dmin"] % 2:
                     bad("parity", "stored parity %s vs model dmin %s" % (val.parity, lp_dec(mo)["dmin"]))
+            if ok and not val.iszero and not lp_dec(mo)["iszero"]:
+                # "degree ... of the stored power range": the RESULT's stored range is what later halves / degree / alignment
+                # work on, so it is compared too (the model's operations keep the same ranges as the code's: product = sum of
+                # the ranges, sum = union, ...)
+                md = lp_dec(mo)
+                m_rng = (int(md["dmin"]), int(md["dmin"]) + 2 * (len(md["coefs"]) - 1))
+                p_rng = (int(val.dmin), int(val.dmax))
+                ctx.count("stored-range-compared")
+                if m_rng != p_rng:
+                    bad("stored-range", "result stored on powers %s..%s, exact model on %s..%s (degree / dmax / halves of the result are then wrong)" % (p_rng + m_rng))
         elif kind == "rat":
             if abs(F(val) - pr(mo)) > 0:
                 bad("value", "lookup %s vs %s" % (val, mo))
